@@ -27,7 +27,7 @@ theorem checkType_ir_refines (env : Env) (orc : Nat → Val → Raw) (a : Ann) (
 
 /-- C01 `sound_partial`, about the interpreted code -/
 theorem ir_sound_partial (env : Env) (orc : Nat → Val → Raw) (hw : WfEnv env)
-    (a : Ann) (v : Val) (hs : a.strAnnOk env v = true) (hns : a.noSpecial = true) (hwf : v.wf env = true) (hp : v.plain = true) :
+    (a : Ann) (v : Val) (hs : a.strAnnOk env v = true) (hns : a.noSpecial = true) (hwf : v.wf env = true) (hp : v.iterFree = true) :
     checkTypeIR env orc a v = .accept → conforms env a v = true := by
   rw [checkType_ir_refines]; exact sound_checkType env orc hw a v hs hns hwf hp
 
@@ -73,12 +73,15 @@ example : (interpTrace envW (fun _ _ => .raisedOther) (.union .optional [.cls 7,
 -- the bare builtin: 'Missing type arguments', re-raised by `_check_type`
 example : (interpCheckType envW (fun _ _ => .raisedOther) (.bare .list) (.coll 4 [])).raw = .raisedPed := by decide
 example : (interpTrace envW (fun _ _ => .raisedOther) (.bare .list) (.coll 4 [])).length = 2 := by decide
--- a NamedTuple value against a class with `__annotations__`: the `_asdict` branch, one activation per field
-example : (interpIsInstance envW (fun _ _ => .raisedOther) false (.clsF 9 [20, 21] [.cls 2, .cls 3])
-    (.ntup 10 [20, 21] [.lit (.int 1), .lit (.str [])])) = ⟨.ok true, (interpIsInstance envW (fun _ _ => .raisedOther) false (.clsF 9 [20, 21] [.cls 2, .cls 3])
-    (.ntup 10 [20, 21] [.lit (.int 1), .lit (.str [])])).trace⟩ := by decide
-example : (interpIsInstance envW (fun _ _ => .raisedOther) false (.clsF 9 [20, 21] [.cls 2, .cls 3])
-    (.ntup 10 [20, 21] [.lit (.int 1), .lit (.str [])])).trace.length = 3 := by decide
+-- an NT1 instance against the NamedTuple class NT1 (`envN`): the NamedTuple block, one activation per annotated field
+example : (interpIsInstance envN (fun _ _ => .raisedOther) false (.clsF 9 [20, 21] [.cls 2, .cls 3])
+    (.ntup 9 [20, 21] [.lit (.int 1), .lit (.str [])])).raw = .ok true := by decide
+example : (interpIsInstance envN (fun _ _ => .raisedOther) false (.clsF 9 [20, 21] [.cls 2, .cls 3])
+    (.ntup 9 [20, 21] [.lit (.int 1), .lit (.str [])])).trace.length = 3 := by decide
+-- … an NT2 instance is no instance of NT1: one activation, rejected
+example : interpIsInstance envN (fun _ _ => .raisedOther) false (.clsF 9 [20, 21] [.cls 2, .cls 3])
+    (.ntup 10 [20, 21] [.lit (.int 1), .lit (.str [])]) = ⟨.ok false, (interpIsInstance envN (fun _ _ => .raisedOther) false
+      (.clsF 9 [20, 21] [.cls 2, .cls 3]) (.ntup 10 [20, 21] [.lit (.int 1), .lit (.str [])])).trace⟩ := by decide
 -- the hypotheses of the corollaries are satisfiable and the conclusions are not trivially true
 example : checkTypeIR envW (fun _ _ => .raisedOther) (.tuple .typing [.cls 2, .cls 3]) (.tup 5 [.lit (.int 1), .lit (.str [])]) = .accept := by decide
 example : checkTypeIR envW (fun _ _ => .raisedOther) (.tuple .typing [.cls 2, .cls 3]) (.tup 5 [.lit (.int 1)]) = .reject := by decide
